@@ -95,10 +95,10 @@ type FieldBuildContext struct {
 func NewFieldBuildContext(m MessageBuildContext, field *FieldDescriptorProtoExt, index int) (*FieldBuildContext, error) {
 	typeName := m.GetName() + "." + field.GetName()
 	path := m.GetPath() + "." + field.GetName()
-	// If the field is an embedded field, path should be
-	// message name, instead of full path to message name.
+	// If the field is an embedded field, its fields belong to the embedding message:
+	// path should be the path to the message, without the name of the field.
 	if gogoproto.IsEmbed(field.FieldDescriptorProto) {
-		path = m.GetName()
+		path = m.GetPath()
 	}
 
 	var t string
